@@ -148,3 +148,17 @@ MUTANTS += [
     dict(property='C13', name='sensitivityIV takes the initial-value block from the front', file=DETF, old="        IV = np.reshape(sensIV[-(nS*nS):], (nS, nS), 'F')", new="        IV = np.reshape(sensIV[:(nS*nS)], (nS, nS), 'F')"),
     dict(property='C13', name='matToVecSens flattens in C order', file=OUF, old="    return np.reshape(S, numState * numParam, order='F')", new="    return np.reshape(S, numState * numParam, order='C')"),
 ]
+BLF = 'pygom/loss/base_loss.py'
+MUTANTS += [
+    dict(property='C07', name='sensitivity columns sorted (original defect: supplied order lost)', file=BLF, old="                    index_out.append(j + (i + 1) * self._num_state)\n        else:", new="                    index_out.append(j + (i + 1) * self._num_state)\n            index_out.sort()\n        else:"),
+    dict(property='C07', name='initial-value column offset uses the number of target parameters', file=BLF, old="        n_s = self._num_state\n        n_p = self._num_param\n", new="        n_s = self._num_state\n        n_p = len(self._getTargetParamIndex())\n"),
+    dict(property='C07', name='sens_to_grad applies the weights twice', file=BLF, old="        for j in range(num_out):\n            sens[:, :, j] *= weight\n\n        grad", new="        for j in range(num_out):\n            sens[:, :, j] *= weight*weight\n\n        grad"),
+    dict(property='C07', name='sens_to_grad reshapes the sensitivities in C order', file=BLF, old="        sens = np.reshape(sens, (n, num_s, num_out), 'F')\n        weight = np.reshape(self._weight, (n, num_s))\n        for j in range(num_out):\n            sens[:, :, j] *= weight", new="        sens = np.reshape(sens, (n, num_s, num_out), 'C')\n        weight = np.reshape(self._weight, (n, num_s))\n        for j in range(num_out):\n            sens[:, :, j] *= weight"),
+    dict(property='C07', name='jacIV starts the initial-value sensitivities at ones instead of the identity', file=BLF, old="np.eye(self._num_state).flatten())", new="np.ones(self._num_state*self._num_state))"),
+    dict(property='C07', name='jac integrates from the first observation time', file=BLF, old="            sol_sens = f(self._ode.ode_and_sensitivity_T,\n                         self._ode.ode_and_sensitivity_jacobian_T,\n                         init_state_sens,\n                         self._t[0], self._t[1::],", new="            sol_sens = f(self._ode.ode_and_sensitivity_T,\n                         self._ode.ode_and_sensitivity_jacobian_T,\n                         init_state_sens,\n                         self._t[1], self._t[1::],"),
+    dict(property='C07', name='sensitivityIV returns the initial-value part first', file=BLF, old='            grad_iv = self._sensToGradIVWithoutIndex(sens, diff_loss)\n            grad = np.append(grad, grad_iv)\n\n            return grad\n', new='            grad_iv = self._sensToGradIVWithoutIndex(sens, diff_loss)\n            grad = np.append(grad_iv, grad)\n\n            return grad\n'),
+    dict(property='C07', name='sensitivity evaluates the loss derivative on the first num_s columns', file=BLF, old='            i = self._stateIndex\n            diff_loss = self._lossObj.diff_loss(sens[:,i])\n            grad = self._sensToGradWithoutIndex(sens, diff_loss)\n\n            return grad', new='            i = list(range(len(self._stateIndex)))\n            diff_loss = self._lossObj.diff_loss(sens[:,i])\n            grad = self._sensToGradWithoutIndex(sens, diff_loss)\n\n            return grad'),
+    dict(property='C20', name='sens_to_jtj without the weights', file=BLF, old="        for j in range(num_out):\n            sens[:,:,j] *= weight\n\n        for i, s in enumerate(sens):", new="        for i, s in enumerate(sens):"),
+    dict(property='C20', name='sens_to_jtj accumulates S S^T-like products of squared entries', file=BLF, old="            if resid is None:\n                J += np.dot(s.T, s)", new="            if resid is None:\n                J += np.dot(s.T, s*s)"),
+    dict(property='C20', name='jtj selects the initial-value columns', file=BLF, old='        index_out = self._getTargetParamSensIndex()\n        return self.sens_to_jtj(sens[:, index_out], diffLoss)', new='        index_out = self._getTargetStateSensIndex()\n        return self.sens_to_jtj(sens[:, index_out], diffLoss)'),
+]
